@@ -489,8 +489,78 @@ def r6_process_tag_function(ctx):
             f["rule"] = "R-C08-6"
 
 
+def r7_resource_ids_stable(ctx):
+    R = "R-C08-7"
+    ctx.rule(R, "the resource type id stamped into a live handle (and looked up in the IsType tables) is the position of the type's name in "
+                "Program::collect_resource_names, and the tables are recomputed from that list at every merge: the list must be in order of FIRST "
+                "APPEARANCE in the append-only type registry, so that growing the program only appends names — no sorting, reversing or iteration "
+                "over a set/map (whose order changes when a name is added) on the way to the result")
+    F = ctx.facts
+    key = "quiver_core::program::Program::collect_resource_names"
+    BAD = ("sort", "sort_by", "sort_by_key", "sort_unstable", "sort_unstable_by", "sort_unstable_by_key", "sort_by_cached_key", "reverse", "rev", "swap", "rotate_left",
+           "rotate_right", "swap_remove", "insert", "select_nth_unstable")
+    ITER = ("iter", "into_iter", "drain", "keys", "values", "into_keys", "into_values", "iter_mut", "difference", "union", "intersection", "pop_first", "pop_last",
+            "first", "last")
+    reads_types = 0
+    bad = []
+    for k in F.with_closures(key):
+        body = F.body(k)
+        for bi, si, st in body.stmts():
+            if st["k"] == "assign":
+                pl = st["rv"].get("p") or (op_place(st["rv"].get("op") or {}) if st["rv"]["k"] in ("use", "cast") else None)
+                if pl and any(e[0] == "f" and e[1] == "types" and (e[2] or "").endswith("program::Program") for e in pl["pr"]):
+                    reads_types += 1
+        for bi, t in body.calls():
+            c = t.get("callee") or ""
+            m = c.split("::")[-1]
+            recv_ty = ""
+            if t["args"] and op_place(t["args"][0]):
+                recv_ty = body.local_ty(op_place(t["args"][0])["l"]) or ""
+            unordered = any(x in recv_ty for x in ("BTreeSet", "BTreeMap", "HashSet", "HashMap", "BinaryHeap")) or any(x in c for x in ("BTreeSet", "BTreeMap", "BinaryHeap"))
+            is_vec_insert = m == "insert" and ("Vec<" in recv_ty and "Hash" not in recv_ty and "BTree" not in recv_ty)
+            if (m in BAD and m != "insert" and ("Vec" in recv_ty or "slice" in c or "Iterator" in c or "[" in recv_ty)) or is_vec_insert:
+                bad.append((m, body.loc(bi)))
+            elif unordered and (m in ITER or (resolved_into_iter(t) and m == "into_iter")):
+                bad.append(("%s over %s" % (m, recv_ty.split("<")[0].split("::")[-1]), body.loc(bi)))
+            elif any(x in c for x in ("BTreeSet", "BTreeMap")) and m in ("from_iter", "collect"):
+                bad.append((m + " into an ordered set", body.loc(bi)))
+            elif m == "collect" and any(x in (body.local_ty(t["dest"]["l"]) or "") for x in ("BTreeSet", "BTreeMap", "HashSet<", "HashMap<")) and \
+                    "alloc::string::String" in (body.local_ty(t["dest"]["l"]) or ""):
+                bad.append(("collect into %s" % (body.local_ty(t["dest"]["l"]) or "").split("<")[0].split("::")[-1], body.loc(bi)))
+    ctx.floor(R, "reads of Program.types in collect_resource_names", reads_types, 1)
+    ctx.check(not bad, R, key + "|first-appearance-order", "names are listed in the iteration order of the type registry (append-only)",
+              "collect_resource_names reorders the names (%s): a merge that introduces a new resource type renumbers the ids that live handles already "
+              "carry — an old handle is then classified as another resource type by IsType and by receive filtering" % ", ".join("%s at %s" % x for x in bad[:4]),
+              bad[0][1] if bad else F.body(key).loc(0))
+
+
+def resolved_into_iter(t):
+    return (t.get("callee") or "").endswith("IntoIterator::into_iter")
+
+
+def r8_check_elision(ctx):
+    """a type pattern's runtime IsType may be omitted only when the value's static type is compatible with (contained in) the pattern's type — shared
+    with R-C09-5 / R-C01-4"""
+    from rules import c09
+    before = len(ctx.obs)
+    c09.r5_unions_and_check_elision(ctx)
+    kept = []
+    for o in ctx.obs[before:]:
+        if "elision" in o["site"] or "type_check_requirements" in o["site"]:
+            o = dict(o)
+            o["rule"] = "R-C08-8"
+            kept.append(o)
+    ctx.obs[before:] = kept
+    if "R-C09-5" in ctx.rules:
+        ctx.rules["R-C08-8"] = ctx.rules.pop("R-C09-5")
+    for f in ctx.floors:
+        if f["rule"] == "R-C09-5":
+            f["rule"] = "R-C08-8"
+
+
 def run(ctx):
-    ctx.run_rules([r1_concrete_tags, r2_tables_describe_whole_program, r3_update_program_replaces, r4_remap_feeds_tables, r6_process_tag_function])
+    ctx.run_rules([r1_concrete_tags, r2_tables_describe_whole_program, r3_update_program_replaces, r4_remap_feeds_tables, r6_process_tag_function,
+                   r7_resource_ids_stable, r8_check_elision])
     ctx.note("check_message_compatible's permissive default (unwrap_or(true)) applies only when a parameter table has no entry; recorded as an assumption")
     return (
         "Decides table-construction clauses: every runtime value kind has exactly its concrete tag; the table builder inserts each tag under "
